@@ -368,14 +368,28 @@ def dispatchCase (pkg : Bytes) : Member → Option Bytes
 def quoteDescription (d : Bytes) : Bytes :=
   replaceByte cr (str "` + \"\\r\" + `") (replaceByte backtick (str "` + \"`\" + `") d)
 
-/-- main.go:510-532 -/
-def tailText (pkg name description : Bytes) : Bytes :=
+/-- the expression after `return ` in `VarlinkGetName` (main.go:513) -/
+def nameLiteral (name : Bytes) : Bytes := str "`" ++ name ++ str "`"
+
+/-- the expression after `return ` in `VarlinkGetDescription` (main.go:519-522) -/
+def descLiteral (description : Bytes) : Bytes := str "`" ++ quoteDescription description ++ str "\n`"
+
+/-- main.go:510-513, up to the returned expression -/
+def tailHead : Bytes :=
   str "// Generated varlink interface name\n\n"
   ++ str "func (s *VarlinkInterface) VarlinkGetName() string {\n"
-  ++ str "\treturn `" ++ name ++ str "`\n" ++ str "}\n\n"
+  ++ str "\treturn "
+
+/-- main.go:513-522, between the two returned expressions -/
+def tailMid : Bytes :=
+  str "\n" ++ str "}\n\n"
   ++ str "// Generated varlink interface description\n\n"
   ++ str "func (s *VarlinkInterface) VarlinkGetDescription() string {\n"
-  ++ str "\treturn `" ++ quoteDescription description ++ str "\n`\n}\n\n"
+  ++ str "\treturn "
+
+/-- main.go:522-532 -/
+def tailEnd (pkg : Bytes) : Bytes :=
+  str "\n}\n\n"
   ++ str "// Generated service interface\n\n"
   ++ str "type VarlinkInterface struct {\n"
   ++ str "\t" ++ pkg ++ str "Interface\n"
@@ -383,6 +397,10 @@ def tailText (pkg name description : Bytes) : Bytes :=
   ++ str "func VarlinkNew(m " ++ pkg ++ str "Interface) *VarlinkInterface {\n"
   ++ str "\treturn &VarlinkInterface{m}\n"
   ++ str "}\n"
+
+/-- main.go:510-532: `VarlinkGetName` returns `nameLiteral`, `VarlinkGetDescription` returns `descLiteral` -/
+def tailText (pkg name description : Bytes) : Bytes :=
+  tailHead ++ nameLiteral name ++ tailMid ++ descLiteral description ++ tailEnd pkg
 
 /-- the buffer `b` at main.go:534 (`ret_string` before the import patch) -/
 def bodyText (t : Idl) : Option Bytes :=
